@@ -111,7 +111,7 @@ def classify_atom(g, alt):
 
 def d1_chain(ctx, idx, st):
     r = ctx.rule('D1.CHAIN', 'precedence chain of the extracted grammar equals sum < product < parallel < unary minus < '
-                             'power < atom', floor=17)
+                             'power < atom', floor=24)
     with r:
         g = G.extract(idx)
         st['g'] = g
@@ -129,6 +129,11 @@ def d1_chain(ctx, idx, st):
         st['forward'] = fwd
         levels, atom = g.chain(fwd)
         st['levels'], st['atom'] = levels, atom
+        ctx.extra['grammar'] = {
+            'terms': len(g.nodes()), 'levels': [lv.describe() for lv in levels],
+            'FIRST(atom)': G.show_chars(g.first(atom)), 'FOLLOW(atom)': G.show_chars(g.follow(atom)),
+            'named_groups': sorted({n for n, t, how in g.groups() if n}),
+        }
         # ---- operator ranks found vs expected
         found_rank, exp_rank = {}, {}
         for i, (kind, pre, inf, optsign) in enumerate(A3):
@@ -317,7 +322,7 @@ def actions_dict(idx):
 
 def d2_table(ctx, idx, st):
     r = ctx.rule('D2.TABLE', 'every named group the grammar produces has its handler in the actions table; grouping and '
-                             'dispatch are by group name', floor=16)
+                             'dispatch are by group name', floor=17)
     with r:
         g = st.get('g') or G.extract(idx)
         fi, call, table = actions_dict(idx)
@@ -642,7 +647,7 @@ NUMBER_NO = ['.', 'e3', '-1', '+1', '1e', '1e-', '1..2', 'x', '']
 
 
 def d4_literals(ctx, idx, st):
-    r = ctx.rule('D4.LITERAL', 'number literals: decimal/scientific text as one token, float(text) * suffixes[suffix]; suffix tables', floor=8)
+    r = ctx.rule('D4.LITERAL', 'number literals: decimal/scientific text as one token, float(text) * suffixes[suffix]; suffix tables', floor=9)
     with r:
         g = st.get('g') or G.extract(idx)
         alt = st.get('atoms', {}).get('number')
@@ -834,7 +839,7 @@ def _assigned(fn):
 
 def d5_whitespace(ctx, idx, st):
     r = ctx.rule('D5.SPACE', 'cache key and parse string are the same space-stripped string; blank input is nan; '
-                             'white-space handling of pyparsing is untouched', floor=8)
+                             'white-space handling of pyparsing is untouched', floor=9)
     with r:
         parse_key_discipline(r, idx)
         # evaluator front door
@@ -889,7 +894,7 @@ def d5_whitespace(ctx, idx, st):
 # ----------------------------------------------------------------------------- D6
 def d6_rejection(ctx, idx, st):
     r = ctx.rule('D6.REJECT', 'whole-string match, non-empty brackets, no juxtaposition / foreign or doubled operators, '
-                              'strict max_array_dim refusal', floor=12)
+                              'strict max_array_dim refusal', floor=18)
     with r:
         g = st.get('g') or G.extract(idx)
         fwd, atom = st.get('forward'), st.get('atom')
@@ -1142,6 +1147,40 @@ def d7_case(ctx, idx, st):
             raise AnalysisError('check_scope: expected 3 membership filters, found %d' % seen)
 
 
+# ------------------------------------------------------------------------- thorough tier
+PROBE_YES = ['1', '1+2', '+1', '-1', '1--1', '2^-2', '2^-2^2', '-2^2', '2*-3', '1||2', '1 || 2', 'x', "x'", 'x_1',
+             'x_{12}^{3}', 'x_{-1}', 'f(1)', 'f(x, y)', "f'(x)", 'f\t(x)', '(1)', '((1+2))*3', '[1,2]', '[[1,2],[3,4]]', '2k',
+             '3%', '1e3', '1.5E-3m', '1\t+\n2', 'a^b^c', u'2^\u20142', u'1\u20142', '+-1', '(+1)', 'x^{2}', 'x_y_z', '1 2']
+PROBE_NO = ['', '1+', '*1', '1**2', '1//2', '1^^2', '1++2', '1-+2', '--1', '1|2', '1|||2', '2\t3', 'x\ty', '2\t(3)',
+            '(1)(2)', 'x(', '()', '[]', 'f()', 'f(,)', '[1,]', '1,2', '1$2', '2!', 'x"', '1=1', '{1}', 'x_{a', '.', '1..2',
+            '1\t.5', 'x\t_1', '2^+2']
+
+
+def thorough(ctx):
+    """Independent cross-check of the FIRST/FOLLOW conclusions: the extracted term graph is run as a recogniser
+    (model of pyparsing's matching, sa.grammar.Grammar.match) on probe strings taken from the property statement
+    (valid forms; doubled operators, juxtaposition across a tab, empty brackets, foreign characters).  Spaces are
+    removed first, as MathParser.parse does (D5)."""
+    idx = ctx.index
+    r = ctx.rule('T.PROBE', 'probe strings: the extracted grammar accepts the documented forms and rejects doubled operators, '
+                            'juxtaposition, empty brackets and foreign characters', floor=len(PROBE_YES) + len(PROBE_NO))
+    with r:
+        g = G.extract(idx)
+        rp = idx.func(MP + '.raw_parse')
+        pcs = lib.calls_named(rp.node, ('parseString', 'parse_string'))
+        pall = (lib.get_kw(pcs[0], 'parseAll', 1) or lib.get_kw(pcs[0], 'parse_all')) if len(pcs) == 1 else None
+        parse_all = pall is not None and nf.const_value(pall) is True
+        for s_, want in [(x, True) for x in PROBE_YES] + [(x, False) for x in PROBE_NO]:
+            text = s_.replace(' ', '')
+            end = g.match(g.root, text, 0)
+            # parseString semantics: a matching prefix is enough unless parseAll=True
+            got = end is not None and (not parse_all or g.match(G.Term('end'), text, end) is not None)
+            r.check(got == want, 'probe %r' % s_, 'accepted' if want else 'rejected',
+                    'the extracted grammar %s %r, which the documented grammar %s' % (
+                        'accepts' if got else 'rejects', s_, 'rejects' if got else 'accepts'),
+                    '%s:%d' % (g.module.relpath, g.fi.node.lineno), expected='accepted' if want else 'rejected')
+
+
 # ------------------------------------------------------------------------ self-test
 _SWAP_OLD = """        pipes = Literal('|') + Literal('|')
         parallel = negation + ZeroOrMore(Suppress(pipes) + negation)
@@ -1252,5 +1291,7 @@ BENIGN = [
            "atom = function | variable | parentheses | number | array"),
     Benign('parallel-zero-test-as-any', EXPR, "        if 0 in parse_result:\n            return 0\n", "        if any(x == 0 for x in parse_result):\n            return 0\n"),
     Benign('quotient-as-reciprocal-product', EXPR, "result = result/value", "result = result*(1/value)"),
+    Benign('snake-case-parse-action', EXPR, "suffix.setParseAction(self.suffix_parse_action)", "suffix.set_parse_action(self.suffix_parse_action)"),
+    Benign('forward-bound-with-ilshift', EXPR, "expression << sumdiff", "expression <<= sumdiff"),
     Benign('log-statement-in-grammar-builder', EXPR, "        # Close the recursion\n", "        print('building grammar')\n"),
 ]
